@@ -1366,6 +1366,12 @@ func c07Scenarios(r *vrt.R) []c07Sc {
 				css := []int64{1, eff, eff + 1, 4096}
 				if eff > 1<<20 && !r.Thorough() {
 					css = []int64{eff, eff + 1, 4096} // 1-byte chunks against the 4 MiB default: thorough tier only
+					if L < 0 {
+						css = []int64{eff + 1} // -1 selects the same default as 0: one chunk size is enough in the quick tier
+					}
+				}
+				if eff == 1<<20 && !r.Thorough() && mode != "server" && mode != "resp-direct" {
+					css = []int64{eff, eff + 1, 4096} // 1-byte chunks against 1 MiB: quick tier only through the server and Response.ReadLimitBody
 				}
 				for _, cs := range css {
 					for _, tot := range []int64{eff - 1, eff, eff + 1, eff + 5000, -1} {
